@@ -1,6 +1,7 @@
 import Rbp.Model.Balances
 import Rbp.Proofs.Utxo
 import Rbp.Proofs.RunSpec
+import Rbp.Props.C10
 /-!
 # C08 — balances lists each address once with the sum of its unspent outputs
 -/
@@ -57,5 +58,19 @@ theorem balances_run_spec (o : Run.Opts) (key : Option W.Bytes) (kvs : List (W.B
 
 /-- non-vacuity: two outputs of one address and one of another -/
 example : B.sumFor "a" [("a", 5), ("b", 7), ("a", 9)] = 14 ∧ B.occurs "b" [("a", 5), ("b", 7), ("a", 9)] = true := by decide
+
+
+/-- **every input.**  Whenever a `balances` run exits 0, its file is the header followed by one row per binding of `balanceMap`
+    over the UTXO fold of exactly the delivered blocks — the same fold `unspentcsvdump` lists (`C07.exit0_dump_is_fold_over_delivered`),
+    so the two dumps of one directory and range always aggregate to each other -/
+theorem exit0_balances_is_aggregate_of_delivered (o : Run.Opts) (key : Option W.Bytes) (kvs : List (W.Bytes × W.Bytes)) (files : List Run.BlkFile)
+    (coin : Run.Coin) (hcoin : Run.coinOf o.coin = some coin) (hcb : o.callback = "balances")
+    (h0 : (Run.run o key kvs files).exit = 0) :
+    (Run.run o key kvs files).files =
+      [(s!"balances-{o.start}-{o.start + (Run.deliveredBlocks o key kvs files).length - 1}.csv",
+        "address;balance" :: balanceRows (utxo coin.version (Run.deliveredBlocks o key kvs files)))] := by
+  have := (Rbp.Props.C10.exit0_output_is_callback_over_delivered o key kvs files coin hcoin h0).1
+  rw [this]
+  simp [Run.callbackOut, hcb]
 
 end Rbp.Props.C08
